@@ -19,7 +19,7 @@ PROPERTY = "C12"
 LEVEL = "exploration"
 TECHNIQUE = "runtime monitoring: exhaustive bounded histories of evaluation events through the real Plan/tracker handlers, state compared with a sequential reference tracker after every event; real BasicOptimizer runs compared with an independent observer"
 LEVEL_TEXT = ("every history up to length 3 (quick) / 4 (thorough) over an alphabet of 44 event kinds (objective incl. NaN and ties x feasibility x result kind x source) "
-              "x tolerance {None,1e-10,0.5} x {no transform, sign-flipping objective transform}, 'best' and 'last' trackers; sampled longer histories with several results per event; real optimizations")
+              "x tolerance {None,0,1e-10,0.5} x {no transform, sign-flipping objective transform}, 'best' and 'last' trackers; sampled longer histories with several results per event; real optimizations")
 LEVEL_NOTE = "trusted: reference tracker in this file; ties accept any minimal result; if only NaN-objective results were delivered both 'nothing' and such a result are accepted"
 ANCHOR_FILES = ["src/ropt/plugins/plan/_tracker.py", "src/ropt/plugins/plan/_utils.py", "src/ropt/plan/_basic_optimizer.py", "src/ropt/plugins/plan/optimizer.py"]
 RULE = ("case = (first event kind(s), tolerance, transform) with every continuation inside; a history is non-trivial if it delivers at least one feasible tracked function result; "
@@ -34,7 +34,7 @@ OBJ = [1.0, 2.0, 2.0, 3.0, float("nan")]
 FEAS = ["ok", "v0.1", "v2", "noinfo"]
 LETTERS = [("f", o, f) for o in range(5) for f in FEAS] + [("nofunc", None, None), ("grad", None, None)]
 EVENTS = [(src, l) for src in ("tracked", "other") for l in LETTERS]
-TOLS = [None, 1e-10, 0.5]
+TOLS = [None, 0.0, 1e-10, 0.5]
 
 
 def cases(tier, seed):
@@ -174,7 +174,7 @@ def run_case(case, obs):
         rng = rng_for(obs.seed, "c12s", case["i"])
         any_nontrivial = False
         for _ in range(300):
-            tol = TOLS[int(rng.integers(3))]
+            tol = TOLS[int(rng.integers(len(TOLS)))]
             flip = bool(rng.random() < 0.5)
             hist = []
             for _k in range(int(rng.integers(4, 9))):
@@ -216,7 +216,7 @@ def _basic(case, obs):
     with_con = bool(rng.random() < 0.5)
     nan_calls = set(int(x) for x in rng.choice(12, size=int(rng.integers(0, 4)), replace=False))
     target = rng.normal(size=2)
-    tol = [1e-10, 0.05, None][int(rng.integers(3))]
+    tol = [1e-10, 0.05, None, 0.0][int(rng.integers(4))]
     cfg = {"variables": {"initial_values": [0.0, 0.0], "lower_bounds": [-2.0, -2.0], "upper_bounds": [2.0, 2.0]},
            "optimizer": {"method": "slsqp", "max_iterations": 6, "tolerance": 1e-8}, "gradient": {"number_of_perturbations": 3},
            "realizations": {"weights": [1.0, 1.0], "realization_min_success": 0}}
